@@ -23,8 +23,8 @@ class C02 : public Check
 public:
     const char *id() { return "C02"; }
     const char *opName(int k) { return wName(k); }
-    int quickRuns() { return 6000; }
-    int quickSeconds() { return 70; }
+    int quickRuns() { return 60000; }
+    int quickSeconds() { return 90; }
     int thoroughSeconds() { return 1200; }
     int cpuBudgetSec() { return 20; }
     const char *rule()
